@@ -380,6 +380,8 @@ FORM_MENU = [
     ("mi-float", dict(mi=("float", None))), ("mi-float-2.5", dict(mi=("float", 2.5))),
     ("mi-np.float32", dict(mi=("float32", None))), ("mi-bool", dict(mi=("bool", True))),
     ("mi-0d-array", dict(mi=("0d", None))), ("mi-zero", dict(mi=("py", 0))),
+    ("mi-negative", dict(mi=("py", -3))), ("mi-np.int8-negative", dict(mi=("int8", -1))),
+    ("mi-float-negative", dict(mi=("float", -2.5))), ("mi-np.int64-negative-positional", dict(mi=("int64", -7), mi_pos=True)),
     ("piv-default-object", dict(piv="default")), ("piv-np.float64", dict(piv="np64")),
     ("piv-np.float32", dict(piv="np32")), ("piv-ints-0", dict(piv="ints0")),
     ("buf-z", dict(buf="z")), ("buf-z-strided", dict(buf="z", zlay="strided")),
@@ -608,8 +610,12 @@ def forms_stream(ctx, lcp_lemke, PivOptions, cases, DEF_TOLS, classes):
                 mi_eff = 10 ** 6 if mi_can is None else mi_can
                 if int(res.status) != 1 and mi_eff > int(res.num_iter) + 1000:
                     mi_eff = int(res.num_iter) + 1000
-                line = "C11 lemkef n=%d M=%s q=%s d=%s maxiter=%d tolpiv=%s toldiff=%s" % (
-                    n, fxm(Mv), fxs(qc), fxs(dd), mi_eff, fx(tols[0]), fx(tols[1]))
+                # zero / negative limits go to the signed entry point of the model (`lcpLemkeI`)
+                op = "lemkefi" if (mi_can is not None and mi_can <= 0) else "lemkef"
+                if op == "lemkefi":
+                    ctx.count("signed-limit-cases")
+                line = "C11 %s n=%d M=%s q=%s d=%s maxiter=%d tolpiv=%s toldiff=%s" % (
+                    op, n, fxm(Mv), fxs(qc), fxs(dd), mi_eff, fx(tols[0]), fx(tols[1]))
                 bstr = "?" if bb is None else ("-" if (bb == -7).all() else ",".join(str(int(v)) for v in bb))
                 impl = "success=%d status=%d num_iter=%d basis=%s z=%s" % (
                     1 if res.success else 0, int(res.status), int(res.num_iter), bstr, fxs(np.asarray(z, dtype=float)))
@@ -1155,6 +1161,10 @@ def run(ctx):
     for bad in ["C11 lemke n=2 M=1,0;0,1 q=-1 d=1,1 maxiter=5 tolpiv=0 toldiff=0",
                 "C11 lemke n=0 M=- q=- d=- maxiter=5 tolpiv=0 toldiff=0",
                 "C11 lemkef n=2 M=1,0;0,1 q=-1,2 d=1,1 maxiter=5",
+                "C11 lemkefi n=1 M=x3ff0000000000000 q=xbff0000000000000 d=x3ff0000000000000 maxiter=1.5 "
+                "tolpiv=x3e7ad7f29abcaf48 toldiff=x3d3c25c268497682",
+                "C11 lemkefi n=1 M=x3ff0000000000000 q=xbff0000000000000 d=x3ff0000000000000 "
+                "tolpiv=x3e7ad7f29abcaf48 toldiff=x3d3c25c268497682",
                 "C11 nosuchop n=1"]:
         out = ctx.driver([bad])[0]
         ctx.count("malformed-request:" + out)
